@@ -2,7 +2,7 @@
 // Every harness ends in a reachability witness kani::cover!(true) (vacuity guard) and carries an unwind bound
 // derived from the code (loop trip counts) with Kani's unwinding assertions left on.
 
-#[cfg(kani)]
+#[cfg(all(kani, feature = "alloc", feature = "precomputed-tables"))]
 mod kani_harnesses {
     use super::*;
     use crate::scalar::Scalar;
